@@ -1,4 +1,5 @@
 import NopModel.Lemmas.XVer
+import NopModel.Lemmas.LangSound
 /-! C07 — Tables stay readable across definition versions in both directions. -/
 namespace Nop
 
@@ -230,5 +231,19 @@ example :
         | _ => none)
      | .error _ => none) = some (.list [.tag 1 (.int 50), .nil, .nil, .tag 1 (.int 30)], [0xEE]) := by
   rfl
+
+/-- **What one version writes is a well-formed message of the other version.** Under the
+hypotheses of `C07_cross_version_xr`: the bytes written with the writer's definition are a word of
+the documented language *of the reader's table type* (docs/format.md read for that type: entries
+the reader does not know or has deleted are the grammar's skipped wire entries, reordering is the
+grammar's any-order rule) and denote exactly the cross-version value - for any handle table that
+resolves the writer's references. -/
+theorem C07_in_other_versions_language (F : Nat → Val → Val) (hash : Nat) (eW eR : List (Nat × Bool)) (tW tR : List Ty)
+    (hwfW : (Ty.table hash eW tW).wf = true) (hwfR : (Ty.table hash eR tR).wf = true)
+    (hx : ∀ p ∈ eW.zip tW, ∀ q ∈ eR.zip tR, p.1.1 = q.1.1 → q.1.2 = false → XR p.2 q.2 (F p.1.1))
+    (v : Val) (h : HChan) (bs : Bytes) (h' : HChan) (hv : valid (.table hash eW tW) v = true)
+    (he : encode (.table hash eW tW) v h = .ok (bs, h')) (hs : List Int) (hr : Resolves hs h'.pushed) :
+    Lang hs (.table hash eR tR) (.list (eR.map (xslot (presentF F eW v.elems)))) bs :=
+  lang_of_decOK (C07_cross_version_xr F hash eW eR tW tR hwfW hwfR hx v h bs h' (dflt (.table hash eR tR)) hv he) hs hr
 
 end Nop
